@@ -70,6 +70,7 @@ func (e *Engine) VerifyFunc(fn *ssa.Function, fc *contract.Func) (rep *FuncRepor
 		}
 	}
 	e.cur = ctx
+	e.Paths = 0 // the path limit is per function
 	startPaths := e.Paths
 	startObl := len(e.Obligs)
 	defer func() {
@@ -137,6 +138,14 @@ func (e *Engine) VerifyFunc(fn *ssa.Function, fc *contract.Func) (rep *FuncRepor
 			typ = fs[1]
 		}
 		st.fr.ghost[name] = e.ghostValue(name, typ, fn)
+	}
+	// mutable ghost variables
+	if len(fc.GhostVars) > 0 {
+		genv := e.funcEnv(st)
+		for _, g := range fc.GhostVars {
+			st.fr.ghost[g.Name] = e.eval(genv, g.Expr)
+			genv.vars[g.Name] = st.fr.ghost[g.Name]
+		}
 	}
 	// read-only slices
 	for _, r := range fc.Readonly {
